@@ -9,9 +9,9 @@ from typing import Any, Dict, List, Optional
 from .common import Rec, tlax
 
 VTYPES_ALL = ["int", "str", "float", "bool", "tuple", "list", "dict", "none", "date",
-              "purepath", "namedtuple", "dataclass"]
+              "purepath", "namedtuple", "dataclass", "tuplelist"]
 # number of distinct values available per type minus one
-VMAX = {"bool": 1, "none": 1}
+VMAX = {"bool": 1, "none": 1, "tuplelist": 1}
 
 
 def stmt(k: str, g: str = "", p: str = "", a: str = "none", lay: str = "1") -> Dict[str, str]:
@@ -121,6 +121,20 @@ class Shape(object):
     def from_json(d: Dict[str, Any]) -> "Shape":
         return Shape(d["name"], d["root"], d["stmts"], d["reads"], d["vtype"], d["dpath"],
                      d["root_path"], d.get("real"), d.get("tags"), d.get("root2"), d.get("untracked"))
+
+
+def class_candidates(shape: "Shape") -> List[str]:
+    """Functions that may be realised as a class with a run() method: only ever plainly called,
+    without arguments, not kept, not referenced, not a root."""
+    res = []
+    roots = [r["f"] for r in shape.roots]
+    for f in shape.funs:
+        uses = [s for g in shape.funs for s in shape.stmts[g] if s["k"] in ("call", "ref", "keep", "eval") and s["g"] == f]
+        if f in roots or shape.dpath[f] or f in shape.untracked or shape.param[f] != "none":
+            continue
+        if uses and all(u["k"] == "call" for u in uses):
+            res.append(f)
+    return res
 
 
 def shape_data_module(shapes: List[Shape]) -> str:
@@ -263,7 +277,9 @@ def illformed_shapes(tier: str = "quick") -> List[Shape]:
     # --- overlapping paths: path sets x orders x placements
     sets = [(["/f", "/f/g"], True), (["/f", "/h", "/f/g"], True), (["/a/b", "/c", "/a"], True),
             (["/a/b/c", "/ab", "/a/b"], True), (["/x", "/f/g/h", "/y", "/f"], True),
-            (["/f", "/fg", "/h"], False), (["/a/b", "/ab/c", "/a/c"], False), (["/f/g", "/f/h", "/g"], False)]
+            (["/m", "/m.bak", "/m/sub"], True), (["/d/m", "/d/m-old", "/d/m/sub"], True), (["/m", "/m v2", "/m/s/t"], True),
+            (["/f", "/fg", "/h"], False), (["/a/b", "/ab/c", "/a/c"], False), (["/f/g", "/f/h", "/g"], False),
+            (["/m.bak", "/m-old", "/m/sub"], False)]
     n = 0
     for (paths, bad) in sets:
         perms = list(itertools.permutations(paths))
